@@ -79,6 +79,10 @@ def write_support(d):
 
 # ------------------------------------------------------------------------------------------- pool
 
+# ONE configuration value shared by several pool items (the property: "when the configuration object is reused")
+WIKI_CFG = {"enable_extensions": ["attrs_inline", "attrs_block", "substitution"], "url_schemes": {"https": None, "wiki": {"url": "https://w.org/{{path}}", "title": "W {{path}}", "classes": ["wiki"]}},
+            "substitutions": {"nested": {"a": [1, 2]}, "s": "text"}, "html_meta": {"description": "d"}, "fence_as_directive": ["note"], "number_code_blocks": ["python"], "disable_syntax": ["table"]}
+
 PROBES = [
     # (name, text, cfg)
     ("evalrst_include_myst_option", "```{eval-rst}\n.. include:: inc.rst\n   :heading-offset: 1\n```\n\nafter\n", {}),
@@ -103,6 +107,10 @@ PROBES = [
     ("slugfunc", "# Ab C\n\n## Ab C\n\n[](#S-AB_C)\n", {"heading_anchors": 2, "heading_slug_func": "mv.slugfuncs.shout"}),
     ("warnings_suppressed", "### skip\n\n{nosuch}`r`\n", {"suppress_warnings": ["myst.header"]}),
     ("warnings_plain", "### skip\n\n{nosuch}`r`\n", {}),
+    # items that share WIKI_CFG (nested dicts / lists of the configuration must never be written to)
+    ("shared_cfg_link_with_class", "[A](wiki:A){.big #lnk} and [B](wiki:B){.other}\n", WIKI_CFG),
+    ("shared_cfg_link_plain", "[C](wiki:C) [D](https://e.org) {{ s }} {{ nested }}\n\n```python\nx\n```\n\n```note\nn\n```\n\n|a|\n|-|\n", WIKI_CFG),
+    ("shared_cfg_front_merge", "---\nmyst:\n  url_schemes:\n    wiki:\n      url: https://other/{{path}}\n      classes: [front]\n  substitutions:\n    s: FRONT\n  html_meta:\n    keywords: k\n---\n[E](wiki:E){.cls} {{ s }}\n", WIKI_CFG),
     # docutils' process-wide registries
     ("default_role_set", "```{default-role} math\n```\n\n```{eval-rst}\n`a+b`\n```\n", {}),
     ("default_role_use", "```{eval-rst}\n`a+b` :emphasis:`e`\n```\n\n```{note}\n```{eval-rst}\n`c`\n```\n```\n", {}),
@@ -252,7 +260,13 @@ def sphinx_project(R):
     files["z_obs3.md"] = "# Obs3\n\n```{eval-rst}\n.. include:: shared.inc\n   :heading-offset: 1\n```\n\n![i](pic.png) [d](d00.md)\n"
     toc = ["# Index", "", "```{toctree}"] + sorted(n[:-3] for n in files if n.endswith(".md")) + ["```", ""]
     files["index.md"] = "\n".join(toc)
-    conf = {"myst_enable_extensions": ["dollarmath", "amsmath", "substitution"], "myst_heading_anchors": 3, "myst_substitutions": {"key": "GLOBAL"}}
+    conf = {"myst_enable_extensions": ["dollarmath", "amsmath", "substitution", "attrs_inline"], "myst_heading_anchors": 3, "myst_substitutions": {"key": "GLOBAL"},
+            "myst_url_schemes": {"http": None, "https": None, "wiki": {"url": "https://w.org/{{path}}", "classes": ["wiki"]}}}
+    files["a_leak7.md"] = "# Leak7\n\n[A](wiki:A){.big} [B](wiki:B){.huge #b}\n"
+    files["d00.md"] += "\n[W](wiki:W0){.zero}\n"
+    files["z_obs2.md"] += "\n[W](wiki:W) [X](wiki:X){.own}\n"
+    for nm in names[1:]:
+        files[nm + ".md"] += "\n[W](wiki:W)\n"
     return files, conf
 
 
